@@ -31,6 +31,8 @@ def equations(year):
         E("1040", "12", "carry", src="1040_sa.17", cond="1040.itemizing", condis=1, cite="12. Standard deduction or itemized deductions (from Schedule A)"),
         E("1040", "12", "const", consts=STD[year], cond="1040.itemizing", condis=0, cite="Standard Deduction side bar of Form 1040"),
         E("1040", "16", "carry", src=W + ".25", cite=cw + " line 25: enter on Form 1040 line 16"),
+        E("1040", "16", "carry_if_any", ["3a", "7"], src=W + ".25",
+          cite="Form 1040 line 16, Tax: if you have qualified dividends (line 3a) or capital gain distributions (line 7) and need not file Schedule D, use the " + cw),
         E("1040", "19", "carry", src="1040_s8812.14" if year != 2021 else "1040_s8812.nonrefundable_ctc_or_odc", cite="19. Child tax credit or credit for other dependents from Schedule 8812"),
         E("1040", "13", "carry", src="8995.15", cite="13. Qualified business income deduction from Form 8995"),
         E("1040", "34", "sub", ["24", "33"], cite="34. If line 33 is more than line 24, subtract line 24 from line 33"),
